@@ -217,6 +217,7 @@ func VerifL2Schedule() {
 		}()
 	case 2:
 		l.failFast = true
+		verifEvent("fail-fast mode")
 	}
 	res := s.Schedule(g)
 	l.scheduleRet = true
